@@ -58,6 +58,33 @@ def handle_programs(draw):
 
 
 @st.composite
+def forwarded_handle_programs(draw):
+    """A handle that first enters a task (and is thereby forked under a key of its own) and is THEN
+    passed on to sibling calls: its forks are named after its key, not after sibling call order, so
+    nothing about it may depend on timing (unlike a fresh handle used by siblings in the task that
+    created it, which is the open finding handle-fork-order)."""
+    def slow(i):
+        e = ["lit", ["int", i]]
+        for _ in range(draw(st.integers(0, 2))):
+            e = ["task", e, {}, {}]
+        return e
+
+    h = ["handle", draw(st.sampled_from(["h", "g"]))]
+    n = draw(st.integers(2, 4))
+    # (no chains here: a handle RETURNED by a task has lost its key again, so use(use(a, ..), ..)
+    # is back in the open finding's territory as soon as a job is re-queued)
+    shape = draw(st.sampled_from(["siblings", "siblings", "two-levels"]))
+    body = ["list", [["use", ["var", "a"], slow(i)] for i in range(n)]]
+    # limits only on the calls that receive the forwarded handle: the job that receives the FRESH
+    # handle must not be one that can be re-queued for limits (that is the open finding)
+    body = add_limits(body, True)
+    stage = ["task", body, {"a": h}, {}]
+    if shape == "two-levels":
+        stage = ["task", ["task", body, {"a": ["var", "a"]}, {}], {"a": h}, {}]
+    return ["list", [stage]]
+
+
+@st.composite
 def single_source_error_programs(draw):
     ek = draw(st.sampled_from(P.ERRK))
     leaf = ["throw", ek, "e1"]
@@ -131,18 +158,21 @@ def add_limits(ast, every):
 
 @st.composite
 def cases(draw):
-    fam = draw(st.sampled_from(["generic", "generic", "handle", "handle", "single-error", "late", "late", "dups", "dups"]))
+    fam = draw(st.sampled_from(["generic", "generic", "handle", "handle", "handle-fwd", "handle-fwd", "single-error", "late", "late", "dups", "dups"]))
     if fam == "generic":
         prog = draw(P.programs(max_depth=3, modes=("node", "dnode"), errors=False, allow=NOERR))
     elif fam == "handle":
         prog = draw(handle_programs())
+    elif fam == "handle-fwd":
+        prog = draw(forwarded_handle_programs())
     elif fam == "late":
         prog = draw(late_children_programs())
     elif fam == "dups":
         prog = draw(duplicate_programs())
     else:
         prog = draw(single_source_error_programs())
-    prog = add_limits(prog, True)
+    if fam != "handle-fwd":
+        prog = add_limits(prog, True)
     k = draw(st.integers(2, 3))
     scheds = [draw(st.lists(st.integers(0, 5), max_size=30)) for _ in range(k)]
     return {"family": fam, "prog": prog, "schedules": scheds, "limits": [None, 1, draw(st.sampled_from([2, 3]))],
@@ -231,7 +261,7 @@ def run_case(ctx: Ctx, case) -> None:
 
 def check(ctx: Ctx) -> None:
     C.quiet_logs()
-    ctx.given(cases(), lambda c: run_case(ctx, c), ctx.n(30, 1600))
+    ctx.given(cases(), lambda c: run_case(ctx, c), ctx.n(50, 1600))
 
 
 def replay(ctx: Ctx, case) -> None:
